@@ -90,6 +90,7 @@ type State struct {
 	splits    map[string][]*Str
 	rec       *Recorder
 	sched     *schedState
+	mayFail   bool // some obligation on this path has a counterexample (or a finding was recorded)
 }
 
 // addPC appends t to the path condition and records simple facts.
